@@ -502,10 +502,10 @@ class DataFrameSchema(Generic[TDataObject], BaseSchema):
             return self._unique
         removed = set(removed)
         renamed = renamed or {}
-        nested = not all(isinstance(x, str) for x in self._unique)
+        nested = any(isinstance(x, (list, tuple)) for x in self._unique)
         groups = self._unique if nested else [self._unique]
         kept = [
-            [renamed.get(name, name) for name in group]
+            type(group)(renamed.get(name, name) for name in group)
             for group in groups
             if not removed.intersection(group)
         ]
